@@ -224,6 +224,64 @@ def exactly_once_rule(ctx, rid):
             rr.bad(ctx.finding(rid, core, twice[1], "after `%s` another run-linear helper call is reachable (%s): the settings are evaluated more than once" % (norm(twice[1].func), vt), construct="helper-twice", path=vt), "one helper [%s]" % vt)
         else:
             rr.ok("exactly one of %d helper call sites runs on every path [%s]" % (len(hn), vt))
+    # a run-linear helper that hands the function on to another module function (a chunked / batched variant): the chunks
+    # must partition the settings in order -- evaluated on a window of sizes by the analyser's own interpreter
+    from ..util import IntEval, callee_func
+    for hq in HELPERS:
+        h = prog.need_func(hq)
+        for c in walk_shallow(h.node):
+            if not isinstance(c, ast.Call):
+                continue
+            cf = callee_func(ctx, h, c)
+            if cf is None or cf.qualname in HELPERS or cf.qualname == CR + "._submit" or cf.module is not h.module:
+                continue
+            if not any(isinstance(a_, ast.Name) and a_.id == "fn" for a_ in list(c.args) + [k.value for k in c.keywords]):
+                continue
+            ctx.touch(cf)
+            need("settings" in cf.params, "idiom changed: %s delegates the evaluation to %s, which has no `settings` parameter" % (h.name, cf.name))
+            subs = [x for x in ast.walk(cf.node) if isinstance(x, ast.Call) and (callee_name(ctx, cf, x) == CR + "._submit" or (isinstance(x.func, ast.Name) and x.func.id == "fn"))]
+            need(len(subs) == 1, "idiom changed: %s evaluates / submits at %d sites" % (cf.name, len(subs)))
+            comp = None
+            for p_ in _anc(subs[0]):
+                if isinstance(p_, (ast.ListComp, ast.GeneratorExp)) and len(p_.generators) == 1:
+                    comp = p_.generators[0].iter
+                    break
+                if isinstance(p_, ast.For):
+                    comp = p_.iter
+                    break
+            need(comp is not None, "idiom changed: the submission loop of %s" % cf.name)
+            if norm(comp) == "settings":
+                continue
+            need(isinstance(comp, ast.Name), "idiom changed: %s submits over `%s`" % (cf.name, norm(comp)))
+            cd = single_def(cf, comp.id)
+            need(cd is not None, "idiom changed: the chunks `%s` of %s" % (comp.id, cf.name))
+            others = [p for p in cf.positional if p not in ("executor", "fn", "settings", "verbosity")]
+            need(len(others) <= 1, "idiom changed: parameters of %s" % cf.name)
+            wrong = None
+            n_eval = 0
+            for n_ in range(0, 13):
+                for size in (range(1, 6) if others else [None]):
+                    st0 = {"settings": tuple(range(n_))}
+                    if others:
+                        st0[others[0]] = size
+                    try:
+                        chunks = IntEval({}).ev(cd[1], st0)
+                        flat = tuple(x for ch in chunks for x in ch)
+                    except AnalysisError as e_:
+                        raise AnalysisError("idiom changed: the chunks of %s cannot be evaluated (%s)" % (cf.name, e_))
+                    except (ZeroDivisionError, TypeError, ValueError):
+                        continue
+                    n_eval += 1
+                    if flat != tuple(range(n_)) and (wrong is None or (size and wrong[0] < 2 * wrong[1] and n_ >= 2 * size)):
+                        wrong = (n_, size, flat)
+            need(n_eval >= 20, "idiom changed: the chunks of %s could be evaluated on %d window points only" % (cf.name, n_eval))
+            if wrong and wrong[1] and wrong[0] < 2 * wrong[1]:
+                raise AnalysisError("idiom changed: the chunks of %s fail to cover the settings only when there are fewer than two chunks (n=%d, size=%d); whether the caller excludes that is not analysed" % (cf.name, wrong[0], wrong[1]))
+            if wrong:
+                rr.bad(ctx.finding(rid, cf, cd[1], "%s splits the settings into `%s`: with %d settings%s the chunks hold the settings %s -- %s, so some combinations are never evaluated (their slots stay empty) or are evaluated twice" % (
+                    cf.name, norm(cd[1])[:70], wrong[0], (" and %s=%d" % (others[0], wrong[1])) if others else "", list(wrong[2]), "not all of them exactly once in order"), construct="chunks-partition " + cf.name), "%s chunks" % cf.name)
+            else:
+                raise AnalysisError("idiom changed: %s evaluates the settings in chunks; the chunks partition the settings on the window, the order of the collected results is not analysed" % cf.name)
     # helpers: one evaluation per element, in order
     for hq in HELPERS:
         h = prog.need_func(hq)
@@ -472,8 +530,8 @@ def settings_construction_rule(ctx, rid):
         rr.ok("%s = %s + %s (case part first)" % (N["fn_args"], got[0], got[1]))
     gt, gv = N["grid"], N["grid_expr"]
     other = gv.left if norm(gv.right) == N["combo_values"] else gv.right
-    od = single_def(core0, other.id) if isinstance(other, ast.Name) else None
-    need(od is not None and N["case_coords"] in norm(od[1]) or (isinstance(other, ast.Call) and N["case_coords"] in norm(other)), "idiom changed: the case part of the full grid `%s`" % norm(other))
+    ods = [v for _, v in assignments_to(core0, other.id) if v is not None] if isinstance(other, ast.Name) else []
+    need((ods and all(N["case_coords"] in norm(v) for v in ods)) or (isinstance(other, ast.Call) and N["case_coords"] in norm(other)), "idiom changed: the case part of the full grid `%s`" % norm(other))
     if norm(gv.right) == N["combo_values"]:
         rr.ok("%s = %s (case part first)" % (gt, norm(gv)))
     else:
@@ -840,8 +898,20 @@ def placeholder_rule(ctx, rid):
                 if len(rv) == 2 and any(x.startswith("sorted(") for x in rv) and any(x.startswith(("list(", "tuple(")) for x in rv):
                     ctx.touch(fn)
                     found = True
+        # one try around the sorting of *all* arguments: a single unsortable argument sends every argument to the unsorted fallback
+        wide = None
+        for t_ in ast.walk(core.node):
+            if isinstance(t_, ast.Try) and any(h_.type is not None and "TypeError" in norm(h_.type) for h_ in t_.handlers):
+                for b_ in t_.body:
+                    for x in ast.walk(b_):
+                        it_ = x.generators[0].iter if isinstance(x, (ast.GeneratorExp, ast.ListComp)) and len(x.generators) == 1 else (x.iter if isinstance(x, ast.For) else None)
+                        if it_ is not None and norm(it_) in (N["case_args"], N["case_coords"], N["case_coords"] + ".values()", N["case_coords"] + ".items()") and "sorted(" in norm(x):
+                            wide = t_
         if found:
             rr.ok("union coordinates sorted, with the unsortable fallback (in a helper)")
+        elif wide is not None:
+            rr.bad(ctx.finding(rid, core, wide, "the union coordinates of all case arguments are sorted inside one try: when one argument's values cannot be ordered (e.g. None among numbers) the TypeError fallback leaves *every* argument in set order, "
+                               "so the coordinates of the sortable arguments are no longer the sorted union", construct="union-sorted-all-or-nothing"), "union sorted")
         else:
             raise AnalysisError("idiom changed: ordering of the per-argument union of case values")
     elif any("reverse=True" in v or "[::-1]" in v or "reversed(" in v for v in vals) or not any(v.startswith("sorted(") for v in vals) or \
@@ -1544,6 +1614,13 @@ def case_binding_rule(ctx, rid):
             elif got in ("fn_args", "self._fn_args"):
                 rr.bad(ctx.finding(rid, f, e, "with fn_args %s, %s receives `%s` instead of `%s`: tuple cases (e.g. those reported by find_missing_cases, ordered like the dataset's dimensions) are bound to other parameters than the caller named, "
                                    "so wrong settings are evaluated and merged" % (tag, what, got, want), construct="case-binding %s %s" % (what, tag)), "%s fn_args %s" % (what, tag))
+            elif got.startswith("parse_fn_args(self.fn") or got.startswith("parse_fn_args(self._fn"):
+                # the signature order of the function: for an omitted fn_args this ignores the order the runner was declared with
+                if val == NONE:
+                    rr.bad(ctx.finding(rid, f, e, "with fn_args omitted, %s receives `%s` -- the function's signature order -- instead of the runner's declared `self._fn_args`: for a Runner built with fn_args that are not a prefix of the signature, "
+                                       "tuple cases are bound to other parameters, so settings nobody requested are evaluated" % (what, got), construct="case-binding %s %s" % (what, tag)), "%s fn_args %s" % (what, tag))
+                else:
+                    rr.ok("fn_args %s: %s receives the caller's names (normalised by parse_fn_args)" % (tag, what))
             else:
                 raise AnalysisError("idiom changed: fn_args reaching %s in Runner.run_cases is `%s`" % (what, got))
     return rr
